@@ -305,6 +305,15 @@ class ParseContext:
       module = '.'.join([source.partial_path(), *inner_names])
 
     original = _inverse_lookup(fn_or_cls)
+    if original is not None:
+      # Re-registration (of a class, for one of its methods): keep the name the
+      # class is already known under, which may derive from another import
+      # spelling, so that existing bindings and registered methods still apply.
+      fn_or_cls_name, module = original.name, original.module
+    elif inspect.isfunction(fn_or_cls) and inspect.isclass(path_attrs[-1]):  # pytype: disable=not-supported-yet
+      parent_class = _inverse_lookup(path_attrs[-1])
+      if parent_class is not None:
+        module = parent_class.selector
     _make_configurable(
         fn_or_cls,
         name=fn_or_cls_name,
